@@ -2,11 +2,11 @@
    correspondence driver.  Only ExtrOcamlBasic: N, positive, nat keep their
    inductive representation; no Extract Constant / Extract Inductive of ours. *)
 From Coq Require Import Extraction ExtrOcamlBasic.
-From BV Require Import Word ArenaModel ArenaPolicy ArenaSpec.
+From BV Require Import Word ArenaModel ArenaPolicy ArenaSpec ArenaInv.
 Extraction Language OCaml.
 Extraction "model.ml"
   W N.add N.mul N.div N.modulo N.sub N.eqb N.leb N.ltb N.of_nat N.to_nat
-  mkCfg mkLayout mkGreq fresh step follow policy ctor_ok
+  mkCfg mkLayout mkGreq fresh step follow policy ctor_ok cfg_okb
   q_allocated_bytes q_allocated_bytes_incl q_chunk_capacity q_iter_chunks held
   cur_ptr cur_foot cur_start
   sp_accounting apply_frees sp_block_ok sp_aligned sp_limit_ok sp_iter_ok sp_reset_ok
